@@ -1000,6 +1000,10 @@ class Interp:
             if name in f.locals:
                 return f.locals[name]
             f = f.fv.closure if (f.fv is not None and f.fv.closure is not None) else None
+        gm = getattr(self.ctx.prog, "global_models", None)
+        if gm and (fr.mod.name, name) in gm:
+            # a module-level object the sidecar models (e.g. a lookup table built by module-level statements)
+            return gm[(fr.mod.name, name)]
         r = source.resolve_global(fr.mod, name)
         if r is None:
             raise py_exc(NameError, "name '%s' is not defined" % name)
@@ -1012,6 +1016,9 @@ class Interp:
                 return FuncVal(mod, node, qual=mod.name + ":" + node.name)
             if r[0] == "assign":
                 _, mod, expr = r
+                for nm in mod.mutated:
+                    if mod.defs.get(nm) == ("assign", expr):
+                        raise Undecided("module-level %s.%s is changed by later module-level statements: needs a global model" % (mod.name, nm))
                 fr = Frame(None, {}, mod)
                 fr.qual = mod.name
                 return self.eval(expr, fr)
